@@ -19,7 +19,8 @@
           | ( heal )                     the directory is usable again (same server: lazily opened stores must retry)
           | ( restart rw|ro )
           | ( zero )
-     every fault position also takes `panic` (the storage call panics)
+     every fault position also takes `panic` (the storage call panics); get also takes hit_trunc | hit_overwrite |
+     hit_unlink: a genuine hit whose entry file is truncated / overwritten in place / unlinked before it is read
      class  = msvc_nc (compiled with MSVC -Zi -Fd<existing pdb>: parsed as cacheable, Cacheable::No at compile time)
      class  = compile | unsupported | vanished | notcompile | cannotcache | cannotcache2
      cc     = default | recache | nocache
@@ -231,11 +232,29 @@ Definition run_req_d (distfail : bool) (ppmode : bool) (orcs : list sx) (faults_
       else
       let f0 := if faults_on then dec_faults (get_bool ok) fs else dec_faults (get_bool ok) (SL []) in
       let f := if broken then broken_over (cs_ro st) f0 else f0 in
-      let '(st', r, acts) := request f (dec_class cl) (dec_cc cc) o st in
-      let reached := match dec_class cl, dec_cc cc, generate_hash_key f (dec_cc cc) o st with
-                     | QCompile, CCDefault, (_, HKKey _, _) => true
-                     | _, _, _ => false
-                     end in
+      let looked := match dec_class cl, dec_cc cc, generate_hash_key f (dec_cc cc) o st with
+                    | QCompile, CCDefault, (_, HKKey k, _) => Some k
+                    | _, _, _ => None
+                    end in
+      (* a fault DURING the request: the lookup is a genuine hit (the entry file is opened and its directory parsed),
+         then — before anything is read from it — the file is truncated / overwritten in place / unlinked.
+         Truncation and overwriting make every later read fail: the request behaves as over an unparsable entry
+         (and leaves one behind unless it re-stores).  An unlinked file stays readable through the open descriptor:
+         a good entry is served, and is gone afterwards. *)
+      let during := match fs with
+                    | SL [_; _; _; g; _] => if faults_on && negb broken then g else SL []
+                    | _ => SL []
+                    end in
+      let entry := match looked with Some k => kv_get k (cs_res st) | None => None end in
+      let parses := match entry with Some (RGood _ _ _) | Some RBadObj | Some RBadOut => true | _ => false end in
+      let good := match entry with Some (RGood _ _ _) => true | _ => false end in
+      let kk := match looked with Some k => k | None => [] end in
+      let st_pre := if (is_sym "hit_trunc" during || is_sym "hit_overwrite" during) && parses then damage_res DTruncate kk st
+                    else if is_sym "hit_unlink" during && parses && negb good then damage_res DDelete kk st
+                    else st in
+      let '(st1, r, acts) := request f (dec_class cl) (dec_cc cc) o st_pre in
+      let st' := if is_sym "hit_unlink" during && good then damage_res DDelete kk st1 else st1 in
+      let reached := match looked with Some _ => true | None => false end in
       (st', r, acts, tu, reached)
   | _ => (st, not_executed CFatal, [], 0, false)
   end.
